@@ -348,25 +348,28 @@ def settle (dec : (k p : Nat) → List Nat → Bool) (o : ObjCfg) (rx : ORx) : P
     { rx := rx', term := if w ≥ o.ks.size then .completed else .receiving }
   else { rx := rx, term := .receiving }
 
-/-- `push_to_block` for one symbol of a non-empty object whose OTI is known -/
-def pushSym (dec : (k p : Nat) → List Nat → Bool) (rc : RxCfg) (o : ObjCfg) (rx : ORx) (s : Sym) : PushRes :=
-  let r : PushRes :=
-    if o.ks.isEmpty then { rx := rx, term := .completed }           -- transfer_length == 0: complete(now)
-    else if s.sbn < rx.written then { rx := rx, term := .receiving } -- already completed
-    else if s.sbn - rx.written > rc.maxLook then { rx := rx, term := .error }
-    else if blockDone dec o.ks o.p rx.got s.sbn then { rx := rx, term := .receiving }
+/-- `push_to_block2` for one symbol of an object whose OTI is known -/
+def pushCore (dec : (k p : Nat) → List Nat → Bool) (rc : RxCfg) (o : ObjCfg) (rx : ORx) (s : Sym) : PushRes :=
+  if o.ks.isEmpty then { rx := rx, term := .completed }           -- transfer_length == 0: complete(now)
+  else if s.sbn < rx.written then { rx := rx, term := .receiving } -- already completed
+  else if s.sbn - rx.written > rc.maxLook then { rx := rx, term := .error }
+  else if blockDone dec o.ks o.p rx.got s.sbn then { rx := rx, term := .receiving }
+  else
+    let fresh := !(rx.got.any (fun x => x.1 == s.sbn))
+    if fresh && (distinctSbns rx.got).length ≥ 2 && allocBytes o.blen rx.got + o.blen.getD s.sbn 0 > rc.maxSize then
+      { rx := rx, term := .error }
     else
-      let fresh := !(rx.got.any (fun x => x.1 == s.sbn))
-      if fresh && (distinctSbns rx.got).length ≥ 2 && allocBytes o.blen rx.got + o.blen.getD s.sbn 0 > rc.maxSize then
-        { rx := rx, term := .error }
-      else
-        -- `push_symbol` ignores an ESI outside the decoder's table (never the case for a genuine packet)
-        let stored := match o.ks[s.sbn]? with
-          | none => false
-          | some k => decide (s.esi < shardsOf o.scheme k o.p) || o.scheme == .raptorq
-        let got' := if stored && !(rx.got.contains (s.sbn, s.esi)) then (s.sbn, s.esi) :: rx.got else rx.got
-        settle dec o { rx with got := got' }
-  -- close-object flag processed while the object is still incomplete: Interrupted
+      -- `push_symbol` ignores an ESI outside the decoder's table (never the case for a genuine packet)
+      let stored := match o.ks[s.sbn]? with
+        | none => false
+        | some k => decide (s.esi < shardsOf o.scheme k o.p) || o.scheme == .raptorq
+      let got' := if stored && !(rx.got.contains (s.sbn, s.esi)) then (s.sbn, s.esi) :: rx.got else rx.got
+      settle dec o { rx with got := got' }
+
+/-- `push_to_block`: the symbol, then the close-object flag: processed while the object is still
+    incomplete it means Interrupted -/
+def pushSym (dec : (k p : Nat) → List Nat → Bool) (rc : RxCfg) (o : ObjCfg) (rx : ORx) (s : Sym) : PushRes :=
+  let r := pushCore dec rc o rx s
   if s.close && r.term == .receiving then { rx := r.rx, term := .interrupted } else r
 
 /-- `push_from_cache`: LIFO replay (`cache.pop()`), stops at the first terminal state -/
@@ -412,44 +415,48 @@ def ageStep (age : Option Nat) (lists : Bool) : Option Nat :=
   | some a => if a + 1 < 10 then some (a + 1) else none
   | none => none
 
+def rx0 : ORx := { otiKnown := false, attached := false, cache := [], written := 0, got := [] }
+
+/-- `ObjectReceiver::push` followed by `check_object_state` -/
+def pushObj (dec : (k p : Nat) → List Nat → Bool) (rc : RxCfg) (o : ObjCfg) (st : OState) (rx : ORx) (s : Sym) : OState :=
+  -- set_oti_from_pkt (in-band FTI)
+  let rx := if !rx.otiKnown && o.inbandFti then { rx with otiKnown := true } else rx
+  if !rx.otiKnown then finish o st { rx := { rx with cache := s :: rx.cache }, term := .receiving }
+  else finish o st (pushSym dec rc o rx s)
+
+/-- `push_obj` once the completed-registry test has passed: find or create the object
+    (`create_obj` attaches it to the first complete instance of `fdt_current` listing the TOI) -/
+def pushNew (dec : (k p : Nat) → List Nat → Bool) (rc : RxCfg) (o : ObjCfg) (st : OState) (s : Sym) : OState :=
+  match st.obj with
+  | some rx => pushObj dec rc o st rx s
+  | none =>
+    if st.age.isSome then
+      let pre := attach dec rc o rx0
+      let st := { st with opens := st.opens + 1 }
+      if pre.term != .receiving then finish o st pre else pushObj dec rc o st pre.rx s
+    else pushObj dec rc o st rx0 s
+
+/-- an FDT instance completes: `attach_latest_fdt_to_objects`, then `gc_object_completed` -/
+def fdtEv (dec : (k p : Nat) → List Nat → Bool) (rc : RxCfg) (o : ObjCfg) (st : OState) (lists : Bool) : OState :=
+  let st :=
+    match st.obj with
+    | some rx =>
+      if lists && !rx.attached then
+        finish o { st with opens := st.opens + 1 } (attach dec rc o rx)
+      else st
+    | none => st
+  { st with completed := st.completed && lists, age := ageStep st.age lists }
+
 /-- one receiver step seen from one object -/
 def stepObj (dec : (k p : Nat) → List Nat → Bool) (rc : RxCfg) (o : ObjCfg) (st : OState) : Ev → OState
-  | .fdt lists =>
-    -- attach_latest_fdt_to_objects, then gc_object_completed
-    let st :=
-      match st.obj with
-      | some rx =>
-        if lists && !rx.attached then
-          finish o { st with opens := st.opens + 1 } (attach dec rc o rx)
-        else st
-      | none => st
-    { st with completed := st.completed && lists, age := ageStep st.age lists }
+  | .fdt lists => fdtEv dec rc o st lists
   | .pkt s =>
-    -- push_obj
-    let go (st : OState) : OState :=
-      let (st, rx) : OState × ORx :=
-        match st.obj with
-        | some rx => (st, rx)
-        | none =>
-          -- create_obj: attach to the first complete instance of fdt_current listing the TOI
-          let rx0 : ORx := { otiKnown := false, attached := false, cache := [], written := 0, got := [] }
-          (st, rx0)
-      let created := st.obj.isNone
-      -- create_obj attaches before the packet is pushed
-      let (st, pre) : OState × PushRes :=
-        if created && st.age.isSome then ({ st with opens := st.opens + 1 }, attach dec rc o rx)
-        else (st, { rx := rx, term := .receiving })
-      if pre.term != .receiving then finish o st pre else
-      let rx := pre.rx
-      -- ObjectReceiver::push
-      let rx := if !rx.otiKnown && o.inbandFti then { rx with otiKnown := true } else rx
-      if !rx.otiKnown then finish o st { rx := { rx with cache := s :: rx.cache }, term := .receiving }
-      else finish o st (pushSym dec rc o rx s)
+    -- push_obj: the completed registry (receive-once; restart on SBN 0 / ESI 0 otherwise)
     if st.completed then
       if rc.receiveOnce then st
-      else if s.sbn == 0 && s.esi == 0 then go { st with completed := false }
+      else if s.sbn == 0 && s.esi == 0 then pushNew dec rc o { st with completed := false } s
       else st
-    else go st
+    else pushNew dec rc o st s
 
 def runObj (dec : (k p : Nat) → List Nat → Bool) (rc : RxCfg) (o : ObjCfg) : OState → List Ev → OState
   | st, [] => st
